@@ -104,6 +104,8 @@ type veEnv struct {
 	versionOf func(name, hash string) string
 	failHeadOf string
 	failHeadN  int
+	slowOpenAfterFail time.Duration
+	failedSeen        map[string]bool
 }
 
 func veMD5(b []byte) string { return fmt.Sprintf("%x", md5.Sum(b)) }
@@ -192,6 +194,22 @@ func (s *veStore) Scan(allow func(sts.File) bool) ([]sts.File, time.Time, error)
 	sort.Strings(names)
 	s.e.ev("scan", "", strings.Join(names, ","))
 	return fs, t, err
+}
+
+// GetOpener: after a verdict "failed" was seen, re-reading that file takes a while (a large file
+// being hashed again by a retry worker)
+func (s *veStore) GetOpener() sts.Open {
+	open := s.Local.GetOpener()
+	return func(f sts.File) (sts.Readable, error) {
+		s.e.mu.Lock()
+		slow := s.e.slowOpenAfterFail > 0 && s.e.failedSeen[f.GetName()]
+		d := s.e.slowOpenAfterFail
+		s.e.mu.Unlock()
+		if slow {
+			time.Sleep(d)
+		}
+		return open(f)
+	}
 }
 
 func (s *veStore) Remove(f sts.File) error {
@@ -439,6 +457,14 @@ func (e *veEnv) validate(sent []sts.Pollable) ([]sts.Polled, error) {
 		}
 		out = append(out, &vePolled{Pollable: f, code: code})
 		desc = append(desc, fmt.Sprintf("%s=%d", f.GetName(), code))
+		if code == sts.ConfirmFailed {
+			e.mu.Lock()
+			if e.failedSeen == nil {
+				e.failedSeen = map[string]bool{}
+			}
+			e.failedSeen[f.GetName()] = true
+			e.mu.Unlock()
+		}
 	}
 	e.ev("poll", "ok", strings.Join(desc, " "))
 	return out, nil
@@ -488,6 +514,7 @@ type veScenario struct {
 	stopAfterTx   int  // stop at the k-th interface event counted from the first answer to a data request
 	stopAtPoll    bool // stop while the first poll answer is on its way back
 	crashAfterTx  int  // crash at the k-th interface event counted from the first answer to a data request
+	slowOpenAfterFail time.Duration // re-reading a file whose validation failed takes this long
 	failHeadOf    string // the request carrying the first part of this file is refused failHeadN times
 	failHeadN     int
 	goneWhileDown bool // crash profiles: one unfinished source file is removed while the sender is down
@@ -563,6 +590,11 @@ func (e *veEnv) newBroker(sc veScenario) (*Broker, *veStore) {
 }
 
 func veRun(tmp string, sc veScenario) string {
+	// a marker that survives a crash of the whole test process: which scenario was running
+	marker := filepath.Join(tmp, "running-"+sc.id)
+	os.WriteFile(marker, []byte(fmt.Sprintf("E %s %s files=%d del=%v threads=%d payload=%d chunk=%d faults=%d stop=%s\n", sc.id, sc.profile,
+		len(sc.files), sc.del, sc.threads, sc.payload, sc.chunk, len(sc.faults), sc.stopKind)), 0o644)
+	defer os.Remove(marker)
 	root := filepath.Join(tmp, "e2e"+sc.id)
 	os.RemoveAll(root)
 	defer os.RemoveAll(root)
@@ -572,7 +604,7 @@ func veRun(tmp string, sc veScenario) string {
 		acked: map[string]int64{}, sentBytes: map[string]int64{}, txRanges: map[string][][2]int64{},
 		crashed: make(chan bool, 1), block: make(chan bool),
 		faults: append([]veFault{}, sc.faults...), pollFault: append([]string{}, sc.pollFault...),
-		failHeadOf: sc.failHeadOf, failHeadN: sc.failHeadN,
+		failHeadOf: sc.failHeadOf, failHeadN: sc.failHeadN, slowOpenAfterFail: sc.slowOpenAfterFail,
 		freezeAt: sc.crashAt, freezeAfterTx: sc.crashAfterTx, stopAt: sc.stopAt, stopAfterTx: sc.stopAfterTx, stopAtPoll: sc.stopAtPoll}
 	for _, d := range []string{e.out, e.cacheDir, e.stageDir, e.finalDir} {
 		os.MkdirAll(d, 0o755)
@@ -1115,6 +1147,16 @@ func veGen(r *gen.Rand, id string, profile string) veScenario {
 			sc.faults = append(sc.faults, veFault{kind: "corrupt", at: 0})
 		}
 		sc.pollFault = []string{"slow"}
+	case "stopretry":
+		// one payload whose first part is corrupted: the verdict is "failed"; a graceful stop arrives while
+		// that verdict is on its way back and the retry worker then needs a while to re-read the file
+		sc.payload, sc.chunk = 1000, 1000
+		sc.faults = []veFault{{kind: "corrupt", at: 0}}
+		sc.stopKind = "graceful"
+		sc.stopAt = 100000
+		sc.stopAtPoll = true
+		sc.slowOpenAfterFail = time.Duration(300+r.Intn(600)) * time.Millisecond
+		sc.threads = 1 + r.Intn(3)
 	case "ooo":
 		// acknowledgements out of order: one file over several payloads, two or three connections, and the
 		// request that carries its FIRST part keeps failing while the later ones go through
@@ -1219,7 +1261,7 @@ func TestVerifE2E(t *testing.T) {
 	}
 	profiles := strings.Split(os.Getenv("VERIF_E2E_PROFILES"), ",")
 	if os.Getenv("VERIF_E2E_PROFILES") == "" {
-		profiles = []string{"plain", "faults", "stop", "crash", "reuse", "mutate", "vanish", "eligible", "swap", "stopfail", "pollnone", "crashfail", "crashgone", "ooo"}
+		profiles = []string{"plain", "faults", "stop", "crash", "reuse", "mutate", "vanish", "eligible", "swap", "stopfail", "pollnone", "crashfail", "crashgone", "ooo", "stopretry"}
 	}
 	N := gen.EnvInt("VERIF_E2E_N", 12)
 	if gen.Thorough() {
